@@ -187,6 +187,36 @@ def step(w, op, prop, strict_others=False):
                 t._data[col] = as_faulty(t._data[col])
         _after_mutation(w, prop, tid, where)
         return "setcol_index" if col == m.index else ("setcol" if existing else "newcol")
+    if kind == "newcol_list":
+        # a new column handed over as a plain python list with one entry per row (numbers, strings, or one list per row of
+        # different lengths): whether the assignment is accepted or refused, every listed column is held afterwards and the
+        # table keeps its shape; the column is then deleted again and the table must be what it was (the model does not follow
+        # columns that are python lists)
+        _, tid, col, form = op
+        t, m = w.real[tid], w.model[tid]
+        n = m.n()
+        if n < 2 or col in m.cols or col in m.scalars:
+            return "skipped"
+        if form == "ragged":
+            val = [list(range(i % 3)) for i in range(n)]
+        elif form == "numbers":
+            val = [0.5 * i for i in range(n)]
+        else:
+            val = ["s%d" % i for i in range(n)]
+        where = "table #%d t[%r] = %r (a python list, one entry per row)" % (tid, col, val)
+        _v, exc = call(lambda: t.__setitem__(col, val))
+        w.check_invariants(prop, tid, where + (" raised %s and" % type(exc).__name__ if exc is not None else ""))
+        if exc is None:
+            if col not in t._col_names:
+                raise TViolation(prop + ".columns", "%s: the column is not listed afterwards" % where)
+            w.count("list_column_accepted")
+            _v, exc2 = call(lambda: t.__delitem__(col))
+            if exc2 is not None:
+                raise TViolation(prop + ".setcol_raises", "%s, then del t[%r] raised %s: %s" % (where, col, type(exc2).__name__, exc2))
+        else:
+            w.count("list_column_refused")
+        _after_mutation(w, prop, tid, where + " and del")
+        return "newcol_list"
     if kind == "setcol_b":
         # one numpy value (scalar, 0-d array or one-element array, of ANOTHER numeric dtype than the column) assigned to an
         # existing column: it is broadcast to every row, the column keeps its length and dtype
